@@ -31,7 +31,7 @@ def gen_cases(tier, seed):
     for i in range(60 if tier == "quick" else 500):
         cases.append({"kind": "qha", "eos": EOSS[i % 3], "E0": float(rng.uniform(-50, 5)), "B0_GPa": float(10 ** rng.uniform(np.log10(20), np.log10(300))), "Bp": float(rng.uniform(3, 6)),
                       "V0": float(10 ** rng.uniform(1, np.log10(300))), "nvol": int(rng.integers(5, 16)), "spread": float(rng.uniform(0.03, 0.10)),
-                      "pressure": [None, 0.0, 5.0, -5.0, 30.0][rng.integers(5)], "el2d": bool(rng.integers(2)), "tmax_mode": ["none", "mid"][rng.integers(2)], "tgrid": ["uniform", "nonuniform"][rng.integers(2)],
+                      "pressure": [None, 0.0, 5.0, -5.0, 30.0][rng.integers(5)], "el2d": bool(rng.integers(2)), "tmax_mode": ["none", "mid"][rng.integers(2)], "tgrid": ["uniform", "nonuniform"][rng.integers(2)], "vgrid": ["cover", "cover", "short", "high"][rng.integers(4)],
                       "alpha": float(rng.uniform(1e-5, 8e-5)), "a2": float(rng.uniform(1e-7, 2e-6)), "cB": float(rng.uniform(1e-5, 2e-4)), "seed": int(rng.integers(10 ** 6)), "_cost": 3})
     return cases
 
@@ -97,6 +97,13 @@ def run_case(c):
     E0T = E0 - c["a2"] * T ** 2
     B0T = B0 * (1 - c["cB"] * T)
     vols = np.linspace(V0 * (1 - c["spread"]), V0T.max() * (1 + c["spread"]), c["nvol"])
+    if c.get("vgrid") == "short":
+        # the sampled volumes end inside the range V0(T) sweeps (strong expansion, narrow grid): the minimum is then an extrapolation of the fitted
+        # EOS for the upper temperatures - legitimate, and exact here because the data ARE an EOS in V
+        # (only just: an EOS fit far from its minimum is ill-conditioned, the recovered parameters then carry the fit's tolerance amplified)
+        vols = np.linspace(V0 * (1 - c["spread"]), V0T.max() - 0.08 * (V0T.max() - V0T.min()), c["nvol"])
+    elif c.get("vgrid") == "high":
+        vols = np.linspace(V0T.min() + 0.08 * (V0T.max() - V0T.min()), V0T.max() * (1 + c["spread"]), c["nvol"])
     F = np.array([[eos(v, E0T[i], B0T[i], Bp, V0T[i]) for v in vols] for i in range(len(T))])  # eV, exactly an EOS in V at every T
     P = c["pressure"]
     Fin = F.copy()
@@ -114,6 +121,7 @@ def run_case(c):
     t_max = None if c["tmax_mode"] == "none" else float(T[len(T) // 2])
     feat = dict(pressure=P, el2d=c["el2d"], nvol=c["nvol"], t_max=t_max, tgrid=c.get("tgrid", "uniform"))
     obs["tgrid_" + c.get("tgrid", "uniform")] = 1
+    obs["vgrid_" + c.get("vgrid", "cover")] = 1
     try:
         qha = PhonopyQHA(volumes=vols, electronic_energies=el, temperatures=T, free_energy=ph, cv=cv, entropy=ent, pressure=P, eos=c["eos"], t_max=t_max)
     except Exception as e:
